@@ -94,6 +94,24 @@ theorem no_deadlock_reachable (c c' : Conf L S) (sched : List Nat) (hwl : WL c)
     (hexec : exec c sched = some c') (hnt : ¬ Terminal c') : ∃ i, (step c' i).isSome = true :=
   deadlock_free c' (wl_exec sched c c' hwl hexec) hnt
 
+/-- Branching programs.  The calculus is straight-line: a thread's `code` is the path it actually
+    took through its methods, the `if`/`while` tests being ordinary `loc`/`sh` instructions.  For the
+    matching coarse execution to be an execution of the *branching* program too, every test must
+    evaluate there as it did in the fine-grained run.  It does: instrument every instruction so that
+    it also appends what it read (its local state and, for `sh`, the shared state) to a log in the
+    thread-local state (`Cmd.logged`, `Conf.withLogs`).  The instrumented fine run reaches `cf'` =
+    `cf` plus the logs (`LoggedOf cf cf'`), and the coarse semantics reaches the very same `cf'`:
+    under the coarse schedule every instruction of every thread reads exactly the values it read in
+    the fine-grained interleaving, so every branch is decided the same way. -/
+theorem observations_agree (c cf : Conf L S) (sched : List Nat) (hwl : WL c) (h0 : c.holder = none)
+    (hexec : exec c sched = some cf) (hterm : Terminal cf) :
+    ∃ cf' sched', exec c.withLogs sched = some cf' ∧ LoggedOf cf cf' ∧
+      aexec c.withLogs sched' = some cf' := by
+  obtain ⟨cf', he', hl⟩ := exec_logged sched c cf c.withLogs (loggedOf_withLogs c) hexec
+  obtain ⟨sched', ha⟩ := serializable c.withLogs cf' sched
+    (WL_logged c c.withLogs (loggedOf_withLogs c) hwl) h0 he' (terminal_logged cf cf' hl hterm)
+  exact ⟨cf', sched', he', hl, ha⟩
+
 /-! ## §2 programs made of extracted method shapes -/
 
 /-- Every thread's program is a sequence of operations, each of which has a shape from `shapes`. -/
@@ -710,5 +728,184 @@ theorem racing_consume_never_overgrants
     exact ⟨Or.inr ⟨hb, ha⟩, by rw [hs]; exact e3⟩
 
 end Named
+
+/-! ## §6 non-vacuity: concrete instances of every hypothesis, and the teeth of `wl` -/
+
+section Examples
+open Redress Redress.Generated.LockShape
+
+/-- what a `record_cancel` without its `with self._lock:` extracts to — rejected -/
+example : wl false [.sh, .sh] = false := by decide
+/-- `allow` reading `self._state` before taking the lock — rejected -/
+example : wl false [.loc, .sh, .acq, .loc, .sh, .sh, .rel] = false := by decide
+/-- nested acquisition — rejected -/
+example : wl false [.acq, .acq, .rel, .rel] = false := by decide
+/-- lock still held at the end — rejected -/
+example : wl false [.acq, .sh] = false := by decide
+/-- `consume` split into two locked halves passes the lock discipline (it is *serializable as two
+    operations*; that it is no longer ONE atomic operation is caught by the dynamic linearizability
+    check, not by `wl`) -/
+example : wl false [.loc, .loc, .acq, .sh, .sh, .rel, .acq, .loc, .sh, .loc, .loc, .rel] = true := by
+  decide
+
+/-- The fine semantics really lets unlocked accesses race: two threads doing an unlocked
+    read-then-write increment lose an update (shared counter ends at 1, not 2).  So `WL` is what
+    carries `serializable`, not the semantics. -/
+def racy : Conf Nat Nat :=
+  { threads := fun i => if i < 2 then ⟨0, [.sh (fun _ s => (s, s)), .sh (fun l _ => (l, l + 1))]⟩
+                        else ⟨0, []⟩,
+    shared := 0, holder := none }
+example : (exec racy [0, 1, 0, 1]).map (·.shared) = some 1 := by rfl
+
+/-- code with a given shape and no-op meaning -/
+def shapeCode : List Instr → List (Cmd Unit Unit)
+  | [] => []
+  | .loc :: r => .loc id :: shapeCode r
+  | .acq :: r => .acq :: shapeCode r
+  | .rel :: r => .rel :: shapeCode r
+  | .sh :: r => .sh (fun l s => (l, s)) :: shapeCode r
+
+theorem shapeCode_instr (s : List Instr) : (shapeCode s).map Cmd.instr = s := by
+  induction s with
+  | nil => rfl
+  | cons x r ih => cases x <;> simp [shapeCode, Cmd.instr, ih]
+
+/-- `FromShapes extractedShapes` is satisfiable: infinitely many threads, each running `allow`
+    (path 0: OPEN → half-open probe), `record_failure` (path 3: counted failure that opens) and
+    `record_cancel`. -/
+def manyThreads : Conf Unit Unit :=
+  { threads := fun _ => ⟨(), shapeCode (CircuitBreaker_allow_p0_shape ++
+      (CircuitBreaker_record_failure_p3_shape ++ CircuitBreaker_record_cancel_p0_shape))⟩,
+    shared := (), holder := none }
+
+example : FromShapes extractedShapes manyThreads := by
+  intro i
+  refine ⟨[CircuitBreaker_allow_p0_shape, CircuitBreaker_record_failure_p3_shape,
+    CircuitBreaker_record_cancel_p0_shape], ?_, ?_⟩
+  · intro s hs
+    simp only [List.mem_cons, List.not_mem_nil, or_false] at hs
+    rcases hs with rfl | rfl | rfl <;> decide
+  · simp [manyThreads, shapeCode_instr]
+
+/-- an operation shaped like the real methods: clock read; `with self._lock:`; section; release -/
+def lockedOp (f : L → S → L × S) : OpCode L S := ⟨[id], [.sh f, .rel]⟩
+
+theorem implements_lockedOp (f : L → S → L × S) : Implements (lockedOp f) f := by
+  intro l s rest; simp [lockedOp, finish, runLocs]
+
+/-- a section made of several shared steps also implements its composite: `consume(1)` as
+    `_prune(now)` followed by test-and-append -/
+def consumeOp (cfg : Budget.Cfg) (now : Nat) : OpCode (Option Bool) Budget.St :=
+  ⟨[id, id],
+   [.sh (fun l s => (l, { events := Budget.prune cfg.window now s.events })),
+    .sh (fun _ s => if s.events.length + 1 > cfg.maxRetries then (some false, s)
+                    else (some true, { events := s.events ++ [now] })),
+    .rel]⟩
+
+theorem implements_consumeOp (cfg : Budget.Cfg) (now : Nat) :
+    Implements (consumeOp cfg now) (ret fun s => Budget.consume cfg s now 1) := by
+  intro l s rest
+  simp only [consumeOp, runLocs, finish, List.cons_append, List.nil_append, ret, Budget.consume]
+  split <;> simp
+
+/-- two idle-otherwise threads running `o0` and `o1` -/
+def twoThreads {R : Type} (o0 o1 : OpCode (Option R) S) (s : S) : Conf (Option R) S :=
+  { threads := fun i => match i with
+      | 0 => ⟨none, o0.code⟩
+      | 1 => ⟨none, o1.code⟩
+      | _ => ⟨none, []⟩,
+    shared := s, holder := none }
+
+def cfgEx : Breaker.Cfg :=
+  { failureThreshold := 2, window := 10, recovery := 5, tripOn := fun _ => true,
+    classThreshold := fun _ => none }
+
+/-- OPEN since 0, clock now at the recovery boundary 5 -/
+def openAtBoundary : Breaker.St := { state := .opened, openedAt := some 0 }
+/-- CLOSED with one failure at 0 (threshold 2) -/
+def closedOneShort : Breaker.St := { failures := [0] }
+
+def probeRace := twoThreads (lockedOp (ret fun s => Breaker.allow cfgEx s 5))
+  (lockedOp (ret fun s => Breaker.allow cfgEx s 5)) openAtBoundary
+
+theorem probeRace_WL : WL probeRace := by
+  intro i
+  match i with
+  | 0 => rfl
+  | 1 => rfl
+  | n + 2 => rfl
+
+/-- the hypotheses of `racing_probes_exactly_one_admitted` hold of `probeRace`, a complete
+    interleaving exists (thread 1 overtakes thread 0 between its clock read and its `with`), and the
+    theorem applies to it -/
+example : ∃ cf, exec probeRace [0, 1, 1, 1, 1, 0, 0, 0] = some cf ∧ Terminal cf ∧
+    ∃ r0 r1, (cf.threads 0).loc = some r0 ∧ (cf.threads 1).loc = some r1 ∧
+      ((r0.1 = true ∧ r1.1 = false) ∨ (r0.1 = false ∧ r1.1 = true)) ∧
+      cf.shared.state = .halfOpen ∧ cf.shared.probe = true := by
+  refine ⟨_, rfl, ?_, ?_⟩
+  · intro i
+    match i with
+    | 0 => rfl
+    | 1 => rfl
+    | n + 2 => rfl
+  · refine racing_probes_exactly_one_admitted cfgEx 5 5 probeRace _ [0, 1, 1, 1, 1, 0, 0, 0]
+      _ _ probeRace_WL rfl rfl rfl (fun i hi => by match i, hi with | n + 2, _ => rfl)
+      (implements_lockedOp _) (implements_lockedOp _)
+      (Or.inl ⟨0, rfl, rfl, by decide, by decide⟩) rfl ?_
+    intro i
+    match i with
+    | 0 => rfl
+    | 1 => rfl
+    | n + 2 => rfl
+
+def failureRace := twoThreads
+  (lockedOp (ret fun s => Breaker.recordFailure cfgEx s .transient 3))
+  (lockedOp (ret fun s => Breaker.recordFailure cfgEx s .serverError 4)) closedOneShort
+
+/-- hypotheses of `racing_failures_open_exactly_once` are satisfiable -/
+example : WL failureRace ∧ failureRace.shared.state = .closed ∧
+    (Breaker.noteFailure cfgEx failureRace.shared .transient 3).1 = true ∧
+    (Breaker.noteFailure cfgEx failureRace.shared .serverError 4).1 = true ∧
+    ∃ cf, exec failureRace [1, 0, 0, 0, 0, 1, 1, 1] = some cf ∧ Terminal cf := by
+  refine ⟨?_, rfl, by decide, by decide, _, rfl, ?_⟩
+  · intro i
+    match i with
+    | 0 => rfl
+    | 1 => rfl
+    | n + 2 => rfl
+  · intro i
+    match i with
+    | 0 => rfl
+    | 1 => rfl
+    | n + 2 => rfl
+
+def budgetCfgEx : Budget.Cfg := { maxRetries := 2, window := 10 }
+
+def consumeRace := twoThreads (consumeOp budgetCfgEx 7) (consumeOp budgetCfgEx 7) ({ events := [3] } : Budget.St)
+
+/-- hypotheses of `racing_consume_never_overgrants` are satisfiable (with the multi-step section) -/
+example : WL consumeRace ∧ 0 < budgetCfgEx.window ∧
+    (Budget.prune budgetCfgEx.window 7 consumeRace.shared.events).length + 1 = budgetCfgEx.maxRetries ∧
+    ∃ cf, exec consumeRace [0, 1, 0, 1, 1, 1, 1, 1, 0, 0, 0, 0] = some cf ∧ Terminal cf := by
+  refine ⟨?_, by decide, by decide, _, rfl, ?_⟩
+  · intro i
+    match i with
+    | 0 => rfl
+    | 1 => rfl
+    | n + 2 => rfl
+  · intro i
+    match i with
+    | 0 => rfl
+    | 1 => rfl
+    | n + 2 => rfl
+
+/-- the sequential facts are not vacuous -/
+example : (Breaker.allow cfgEx openAtBoundary 5).1.1 = true ∧
+    (Breaker.allow cfgEx (Breaker.allow cfgEx openAtBoundary 5).2 5).1.1 = false := by decide
+example : (Budget.consume budgetCfgEx { events := [3] } 7 1).1 = true ∧
+    (Budget.consume budgetCfgEx (Budget.consume budgetCfgEx { events := [3] } 7 1).2 7 1).1 = false := by
+  decide
+
+end Examples
 
 end Redress.C17
